@@ -372,6 +372,57 @@ def run(loader, R, tier):
     R.floor("mutable members of shared classes", nmut, 1)
     R.floor("reference count members", nref, 1)
 
+    # ---------------------------------------------------------------- R41.4
+    # the release of a reference must decide "was I the last owner?" from the
+    # value returned by the atomic decrement itself; a separate read of the
+    # counter (use_count()) after the decrement lets two threads both see 0,
+    # or read the counter of an object another thread already freed
+    from selib import sym as _sym
+    R.rule("R41.4", "every delete in the RCP implementation is guarded by "
+                    "the result of the atomic decrement itself")
+    ndel = 0
+    seen_keys = set()
+    for u, f in prog.functions.items():
+        if not f["file"].endswith("symengine_rcp.h") or not f.get("body") \
+                or f.get("dependent") or f.get("tk") == "pattern":
+            continue
+
+        def cb4(n, guards, line, f=f):
+            nonlocal ndel
+            if n.get("k") != "delete":
+                return
+            key = "%s@%s" % (short(strip_targs(f["qn"])), n.get("l"))
+            ok = False
+            for g in _sym.flatten_guards(guards):
+                if g[0] == "case":
+                    continue
+                c, pol = g
+                for x in walk(c):
+                    if x.get("k") in ("un", "op") and x.get("op") == "--" \
+                            and "refcount_" in show(x):
+                        ok = True
+                    if x.get("k") == "mcall" and x.get("n") in (
+                            "fetch_sub",) and "refcount_" in show(x):
+                        ok = True
+            if key not in seen_keys:
+                seen_keys.add(key)
+                ndel += 1
+                R.instance("R41.4", key, sample={
+                    "delete_in": short(strip_targs(f["qn"])),
+                    "guarded_by_decrement_result": ok})
+                if not ok:
+                    R.violation(
+                        "R41.4", short(strip_targs(f["qn"])),
+                        prog.loc(f, n.get("l")),
+                        "%s deletes the object under a condition that does "
+                        "not use the value of the atomic decrement itself: "
+                        "decrement and test are two steps, so two threads "
+                        "releasing concurrently can both delete, or read "
+                        "the counter of a freed object" % short(
+                            strip_targs(f["qn"])))
+        _sym.visit_guarded(f["body"], cb4)
+    R.floor("delete sites in the RCP implementation", ndel, 2)
+
     # ---------------------------------------------------------------- R41.2
     def const_casts(p):
         out = []
